@@ -58,13 +58,16 @@ func Standalone(api string) bool { return api == APISSnap || api == APISJSON }
 // harness (to pass it to the library) and by the driver (to format it with the
 // third-party formatter).
 type Value struct {
-	K string            `json:"k"`           // s: string, b: []byte, i: int, ss: []string, m: map[string]int, st: struct, pst: *struct, f: float, n: nil, bo: bool
+	K string            `json:"k"`           // s: string, ds: defined string type, b: []byte, i: int, ss: []string, m: map[string]int, st: struct, pst: *struct, f: float, n: nil, bo: bool
 	S []byte            `json:"s,omitempty"` // payload for s and b (base64 in JSON)
 	I int               `json:"i,omitempty"`
 	L []string          `json:"l,omitempty"`
 	M map[string]int    `json:"m,omitempty"`
 	X map[string]string `json:"x,omitempty"` // st / pst fields
 }
+
+// Text is a defined string type (like template.HTML or a project's own Markdown type).
+type Text string
 
 type Rec struct {
 	Name  string
@@ -78,6 +81,8 @@ func (v Value) Go() any {
 	switch v.K {
 	case "s":
 		return string(v.S)
+	case "ds":
+		return Text(v.S)
 	case "b":
 		return append([]byte{}, v.S...)
 	case "i":
